@@ -484,6 +484,11 @@ def _norm1(e, ctx):
         if fn == ('name', 'Cat') and len(args) == 2 and not kwargs and args[0][0] == 'call' and args[0][1] in (('name', 'Const'), ('name', 'C')) and \
                 len(args[0][2]) == 2 and args[0][2][0] == ('const', 0) and not args[0][3]:
             return ('nary', '*', (('bin', '**', ('const', 2), args[0][2][1]), args[1]))
+        # a view and its underlying value are the same bits: Value.cast(x) / x.as_value() name x
+        if fn == ('attr', ('name', 'Value'), 'cast') and len(args) == 1 and not kwargs:
+            return args[0]
+        if fn[0] == 'attr' and fn[2] == 'as_value' and not args and not kwargs:
+            return fn[1]
         # logarithms of constants; a one-fold replication; the bits of a value, concatenated in order, are the value
         if fn in (('name', 'exact_log2'), ('name', 'ceil_log2')) and len(args) == 1 and not kwargs and args[0][0] == 'const' and \
                 isinstance(args[0][1], int) and not isinstance(args[0][1], bool) and args[0][1] >= 1:
